@@ -205,3 +205,12 @@ Proof.
   intros H. destruct key_injective_refuted_proof as [E Hne].
   destruct (H kw_n1 1 kw_s1 kw_n2 5 ScNone ltac:(reflexivity) ltac:(reflexivity) E) as [A _]. contradiction.
 Qed.
+
+(* the rendering of the type: decimal, for every 16-bit value *)
+Lemma qtype_rendering_proof : forall q, q < 65536 -> digits q <> [] /\ val (digits q) = q /\ Forall is_digit (digits q).
+Proof. exact digits_spec. Qed.
+
+(* an array of pre-computed strings with unfilled slots, only bounds-checked: SOA (6) and HINFO (13) share a key *)
+Lemma key_array_variant_refuted_proof :
+  key_of_array kw_n1 6 ScNone = key_of_array kw_n1 13 ScNone.
+Proof. vm_compute. reflexivity. Qed.
